@@ -28,4 +28,5 @@ var Registry = map[string]func(tier string, args []string) int{
 	"C20": func(t string, a []string) int { return C20(t) },
 	"C16": func(t string, a []string) int { return C16(t) },
 	"C01": C01,
+	"C02": C02,
 }
